@@ -1,7 +1,7 @@
 SPECIFICATION Spec
 CONSTANTS
-Kinds = {"bool", "int", "string", "*int", "[]int", "map", "S", "*S", "any", "E1", "*E1"}
-Tags = {"", "nm", "oe", "str", "dash"}
+Kinds = {"bool", "int", "string", "*int", "[]int", "map", "S", "any", "E1", "*E1"}
+Tags = {"", "oe", "str", "dash"}
 MaxFields = 2
 Leaky = FALSE
 INVARIANT RefAdmitted
